@@ -48,6 +48,7 @@ type HarnessSpec struct {
 	MakeSliceMax   int               `json:"makeslice_max"`
 	InjectFailures bool              `json:"inject_failures"`
 	MaxSeconds     int               `json:"max_seconds"`
+	Natural        bool              `json:"natural_models"`
 }
 
 type Job struct {
@@ -257,6 +258,7 @@ func runHarness(prog *ssa.Program, fn *ssa.Function, hs HarnessSpec, hr *Harness
 		params: hs.Params, known: hs.Known, knownHit: map[string]bool{}, oblMsgs: map[string]bool{},
 		maxPaths: hs.MaxPaths, nSamples: hs.Samples, makeSliceMax: 8, builtinStubs: map[string]string{}}
 	e.injectFailures = hs.InjectFailures
+	e.natural = hs.Natural
 	if hs.MaxSeconds > 0 {
 		e.deadline = time.Now().Add(time.Duration(hs.MaxSeconds) * time.Second)
 	}
